@@ -150,6 +150,15 @@ class EngineLineCropper(object):
         y_max = int(np.ceil(np.amax(coords[:, :, 1])))
 
         if x_min < 0 or y_min < 0 or x_max > img.shape[1]-1 or y_max > img.shape[0]-1:
+            if max(img.shape[:2]) >= 32767:
+                # cv2.remap cannot address source images with a side of 32767 px or more, hand it only the part
+                # of the page the line touches (the cut edges that are not page edges are never sampled)
+                x_start, y_start = max(x_min, 0), max(y_min, 0)
+                img = img[y_start:max(y_max+1, y_start), x_start:max(x_max+1, x_start)]
+                if img.shape[0] == 0 or img.shape[1] == 0:
+                    return np.zeros(coords.shape[:2] + img.shape[2:], dtype=img.dtype)
+                coords = coords - np.asarray([x_start, y_start], dtype=coords.dtype)
+
             line_crop = cv2.remap(img, coords[:, :, 0], coords[:, :, 1],
                                        interpolation=cv2.INTER_LINEAR, borderMode=cv2.BORDER_CONSTANT)
         else:
